@@ -555,13 +555,19 @@ func runProp(prop, tier, repo, verif string, workers int, seed int64, solverBin,
 		cov["distinct_nontrivial"] = agg.Done
 		cov["rule"] = "each evaluation is one symbolic path (a set of inputs sharing all branch outcomes); non-trivial = ran to completion"
 	}
+	assumptions := append([]string{
+		"solver answers of z3 are trusted (unknown/timeout are counted as undecided, never as passed)",
+		"go/ssa translation of /repo's current working tree and the engine's instruction semantics (validated on every run by replaying sampled paths natively)",
+		"engine models of fmt/strings/strconv/hex/bytealg/sort.Slice (DESIGN.md 2.5); symbolic operands of fmt verbs give opaque strings",
+		"heap shapes, slice lengths and loop counts are concrete per path; symbolic lengths are case-split up to EnumCap values, more is reported as inconclusive",
+	}, pd.Assumptions...)
 	ev := map[string]interface{}{
 		"property_id": prop,
 		"tier":        tier,
 		"seed":        seed,
 		"level":       level,
 		"coverage":    cov,
-		"assumptions": pd.Assumptions,
+		"assumptions": assumptions,
 		"wall_s":      round2(wall),
 		"violations":  len(confirmed),
 	}
